@@ -10,7 +10,7 @@ G1 = L7_F | L7_DQ | L7_CD | L7_BW | L7_VL
 G2 = (1 << 6) | (1 << 8) | (1 << 9) | (1 << 10) | (1 << 11) | (1 << 12) | (1 << 14)
 RELEVANT = {1: [19, 20, 27, 28, 25, 1, 9], 2: [5, 16, 17, 28, 30, 31, 29, 3, 8, 21], 3: [6, 8, 9, 10, 11, 12, 14], 4: [1, 2, 5, 6, 7]}
 
-ARCH = [((1, 20), [(1, 19)]), ((1, 19), [(1, 9)]), ((1, 28), [(1, 20), (1, 27)]), ((2, 5), [(1, 28)]), ((2, 16), [(2, 5)]),
+ARCH = [((1, 20), [(1, 19)]), ((1, 19), [(1, 9)]), ((1, 28), [(1, 20)]), ((2, 5), [(1, 28)]), ((2, 16), [(2, 5)]),
         ((2, 17), [(2, 16)]), ((2, 28), [(2, 16)]), ((2, 30), [(2, 16)]), ((2, 31), [(2, 16)]), ((3, 6), [(2, 16)]),
         ((3, 11), [(2, 16)]), ((3, 12), [(2, 16)]), ((3, 14), [(2, 16)]), ((4, 2), [(4, 1), (1, 27)]), ((4, 5), [(4, 2)]),
         ((4, 6), [(4, 2)]), ((4, 7), [(4, 2)]),
@@ -42,7 +42,11 @@ def gen_configs(rng, n):
     avx2 = [base[0], avx[1], L7_AVX2 | L7_BMI1 | L7_BMI2, 0, 6]
     a512 = [base[0], avx[1], avx2[2] | G1, 0, 0xE6]
     a512g2 = [base[0], avx[1], avx2[2] | G1, G2, 0xE6]
-    for l in (base, sse, avx, avx2, a512, a512g2):
+    # CPUs whose OS leaves XSAVE off (CPUID.1:ECX.OSXSAVE = 0, XCR0 unreadable): AVX/AVX2/AVX-512 still reported by CPUID
+    avx_nox = [base[0], sse[1] | L1_AVX, 0, 0, 0]
+    avx2_nox = [base[0], sse[1] | L1_AVX, avx2[2], 0, 0]
+    a512_nox = [base[0], sse[1] | L1_AVX, avx2[2] | G1, G2, 0]
+    for l in (base, sse, avx, avx2, a512, a512g2, avx_nox, avx2_nox, a512_nox):
         levels.append(l)
     out = [list(l) for l in levels]
     for l in levels:        # with SHA
